@@ -846,6 +846,27 @@ def p_bbox_ops(opname, ta, tb, box_a, box_b):
     return tuple(got.bbox) == want and got.crs is A.crs, f"returned {got!r}, want {want} tagged {A.crs!r}"
 
 
+def p_intersects_fn(ta, tb, ka, kb):
+    """module-level odc.geo.geom.intersects(a, b) ("intersects and not merely touches"): operands in different CRSs ->
+    CRSMismatchError; otherwise shapely's `intersects and not touches` on the raw shapes"""
+    from odc.geo import geom as og
+    from odc.geo.crs import CRSMismatchError
+    from odc.geo.geom import Geometry
+    T, S = tags(), shapes()
+    A, B = Geometry(S[ka], crs_obj(T, ta)), Geometry(S[kb], crs_obj(T, tb))
+    differ = tag_differs(T, ta, tb) or tag_differs(T, tb, ta)
+    try:
+        got = og.intersects(A, B)
+    except CRSMismatchError:
+        return differ, "" if differ else "CRSMismatchError although the CRSs are equal"
+    except Exception as e:
+        return False, f"raised {type(e).__name__}: {e}"
+    if differ:
+        return False, f"returned {got!r} for geometries in different CRSs ({TAG_NAMES_(ta)} vs {TAG_NAMES_(tb)})"
+    want = bool(S[ka].intersects(S[kb]) and not S[ka].touches(S[kb]))
+    return bool(got) == want, f"returned {got!r}; shapely's intersects-and-not-touches on the raw shapes is {want}"
+
+
 def p_split(ta, tb, ka="polygon", kb="line"):
     from odc.geo.crs import CRSMismatchError
     from odc.geo.geom import Geometry
@@ -854,9 +875,16 @@ def p_split(ta, tb, ka="polygon", kb="line"):
     A, B = Geometry(S[ka], crs_obj(T, ta)), Geometry(S[kb], crs_obj(T, tb))
     differ = tag_differs(T, tb, ta)
     try:
-        got = list(A.split(B))
+        res = A.split(B)          # the CALL must raise, not only the first iteration of what it returns
     except CRSMismatchError:
         return differ, "" if differ else "CRSMismatchError although the CRSs are equal"
+    try:
+        got = list(res)
+    except CRSMismatchError:
+        if differ:
+            return False, (f"split() returned {res!r} without raising for a splitter in a different CRS "
+                           f"({TAG_NAMES_(tb)} vs {TAG_NAMES_(ta)}); the CRSMismatchError appears only when the result is iterated")
+        return False, "CRSMismatchError although the CRSs are equal"
     if differ:
         return False, f"returned {got!r} for a splitter in a different CRS"
     try:
@@ -922,7 +950,8 @@ def p_call_mixed(qual):
 
 
 PREDICATES = {"pair": p_pair, "nary": p_nary, "geobox": p_geobox, "split": p_split, "call_mixed": p_call_mixed,
-              "history": p_history, "geobox_list": p_geobox_list, "bbox_ops": p_bbox_ops}
+              "history": p_history, "geobox_list": p_geobox_list, "bbox_ops": p_bbox_ops,
+              "intersects_fn": p_intersects_fn}
 
 
 def search(out, tier, offenders, disagreeing=()):
@@ -960,6 +989,10 @@ def search(out, tier, offenders, disagreeing=()):
             for _ in range(2 if tier == "quick" else 12):
                 run("pair", name, ta, tb, rng.choice(kinds), rng.choice(kinds))
     for ta, tb in itertools.product(TAG_IDS, TAG_IDS):
+        # function forms (alternative entry points of the wrapped methods)
+        for ka, kb in [("polygon", "polygon-overlap"), ("polygon", "polygon-far"), ("polygon", "line"),
+                       (rng.choice(kinds), rng.choice(kinds))]:
+            run("intersects_fn", ta, tb, ka, kb)
         run("split", ta, tb)
         # splitters that do not touch the geometry (the usual mixed-CRS situation), multi-part inputs
         for ka, kb in (("polygon-far", "line"), ("multipolygon", "line"), ("polygon", "line-far"), ("multipolygon", "line-far"),
@@ -1050,7 +1083,7 @@ def run(out, tier, scratch):
         "specs; CRS.__eq__ must agree with it for every construction route and inspection history (checked as an oracle obligation and, "
         "through the combining operations, by the `history` predicate)",
         "unary_intersection's closed form assumes shapely's intersection of two geometries is a geometry",
-        "Geometry.split is a generator: the CRS test runs when the result is first iterated; the model describes the consumed list",
+        "Geometry.split checks the CRSs at call time (repaired, d8854e4) and returns an iterator; the model describes the consumed list",
     ]
     # ---- static obligations
     decorated, candidates = static_scan()
@@ -1130,6 +1163,8 @@ def run(out, tier, scratch):
             disagreeing.append(("nary", [nt[0], list(nt[1]), list(nt[2])]))
         elif isinstance(nt, tuple) and nt and nt[0] == "split":
             disagreeing.append(("split", list(nt[1:5])))
+        elif isinstance(nt, tuple) and nt and nt[0] == "intersects":
+            disagreeing.append(("intersects_fn", list(nt[1:5])))
     search(out, tier, offenders, disagreeing)
 
 
@@ -1163,8 +1198,8 @@ META = {
              "(arbitrary relation in the theorems - not even reflexivity is used; the check validates on its tag alphabet that the four "
              "spellings behave as an equivalence, and - against pyproj's own equality as independent reference - that == does not depend on "
              "construction route, lazy EPSG identification (.epsg/to_epsg()), pickling, copying or cache population); for the closed form of unary_intersection, shapely's intersection returns a geometry.  "
-             "Modelled conventions: Geometry.split is a generator, so its CRSMismatchError is raised at first iteration (the model is "
-             "the consumed list); GeoBox operations raise a plain ValueError('Geobox CRSs must match'), not CRSMismatchError (the "
+             "Modelled conventions: Geometry.split raises its CRSMismatchError at call time (repaired: it was a generator) and returns an "
+             "iterator (the model is the consumed list); GeoBox operations raise a plain ValueError('Geobox CRSs must match'), not CRSMismatchError (the "
              "property asks for a ValueError); a | b with a non-invertible first affine fails in affine inversion before the CRS test of "
              "b is reached (still no result).  Not proved: what shapely returns; that CRS.__eq__ identifies equal CRSs in other spellings "
              "(oracle, tested); operations outside geom.py/geobox.py."),
